@@ -266,6 +266,19 @@ def run(rep, tier="quick", replay=None, evidence_dir=None):
                 bad.append("%s iterates %s" % (b.path, ga))
     rep.ob("C12.R4", "no HashMap/HashSet iteration in the canonical-form path", not bad, "; ".join(bad))
 
+    # ---------------------------------------------------------------- R5 (imported): the full names that the canonical
+    # form prints are the ones the parser assigned; they depend on the namespace being threaded into nested definitions
+    rep.rule("C12.R5", "full names are assigned consistently: namespace threading in the parser (C11.R4 instances)")
+    import c11
+    sub = common.Report("C11", tier, 0)
+    c11.run(sub, tier=tier, collect_only=True)
+    n5 = 0
+    for o in sub.obligations:
+        if o["rule"] == "C11.R4":
+            n5 += 1
+            rep.ob("C12.R5", "[C11.R4] " + o["instance"], o["ok"], o["detail"], o["loc"])
+    rep.floor("C12.R5", "imported namespace-threading obligations", n5, 20)
+
     rep.floor("C12", "obligations", len(rep.obligations), 38)
     rep.not_decided = ["canonical text of concrete schemas (name qualification, escaping, number formatting)", "CRC-64-AVRO table arithmetic; MD5 / SHA-256 (library digests)",
                        "that edits the specification calls irrelevant leave the form unchanged (follows from R1's strip list only for attribute edits)"]
